@@ -518,6 +518,7 @@ func c04(c *Ctx) {
 	r.Floor("C04.R7", 3)
 	c04Unwrap(p, r)
 	c04ElemComplete(p, r)
+	c04TypeListPadded(p, r)
 	r.Floor("C04.R12", 2)
 	c04UnwrapFromLast(p, r)
 	r.Floor("C04.R8", 3)
